@@ -108,6 +108,7 @@ const (
 	ErrorFormatStringLengthNotMatch           = 13501
 	ErrorUnknownFormatPlaceholder             = 13502
 	ErrorFormatUnexpectedTermination          = 13503
+	ErrorFormatWidthTooLarge                  = 13504
 	ErrorInvalidReloadType                    = 13601
 	ErrorLoadConfiguration                    = 13701
 	ErrorDuplicateStatementName               = 13801
